@@ -19,7 +19,7 @@ from __future__ import annotations
 import http.client
 import re
 
-from kit.h import P, run, mark, known, concretize
+from kit.h import P, run, mark, known, concretize, decode_point
 from kit import net as N
 from kit import env as E
 
@@ -162,7 +162,6 @@ def _send(front, method, target, headers):
 def _field_body(x):
     field = P.field
     front = P.front
-    x = concretize(x)
     method, target, hname, hvalue = "GET", "/p", "X-A", "v"
     if field == "method":
         method = x
@@ -210,13 +209,36 @@ def _field_body(x):
     return True
 
 
-def c10_field(x: str) -> bool:
+def strings_upto(alphabet, n):
+    out = [""]
+    layer = [""]
+    for _ in range(n):
+        layer = [a + ch for a in layer for ch in alphabet]
+        out.extend(layer)
+    return out
+
+
+_STR_CACHE = {}
+
+
+def field_dims(part):
+    key = (part.get("alphabet", ALPHABET), part["maxlen"])
+    if key not in _STR_CACHE:
+        _STR_CACHE[key] = strings_upto(*key)
+    return [_STR_CACHE[key]]
+
+
+def _field_point(idx):
+    (x,) = decode_point(idx, field_dims(P))
+    return N._untraced(_field_body)(x)
+
+
+def c10_field(idx: int) -> bool:
     """
-    pre: len(x) <= P.maxlen and all(ch in ALPHABET for ch in x)
-    pre: P.first is None or (len(x) >= 1 and x[0] == P.first)
+    pre: 0 <= idx < P.n
     post: _
     """
-    return run(_field_body, x)
+    return run(_field_point, idx)
 
 
 AUTO = ["Host", "Accept-Encoding", "User-Agent"]
@@ -259,17 +281,26 @@ def _auto_body(front, mask, skipmask, cv):
     return True
 
 
-def c10_auto(front: int, mask: int, skipmask: int, cv: int) -> bool:
+def auto_dims(part):
+    masks = [(m, sk) for m in range(8) for sk in range(8) if not (sk & ~m)]
+    return [masks, [0, 1, 2, 3]]
+
+
+def _auto_point(idx):
+    (mask, sk), cv = decode_point(idx, auto_dims(P))
+    return N._untraced(_auto_body)(P.front, mask, sk, cv)
+
+
+def c10_auto(idx: int) -> bool:
     """
-    pre: front == P.front and 0 <= mask <= 7 and 0 <= skipmask <= 7 and (skipmask & ~mask) == 0 and 0 <= cv <= 3
+    pre: 0 <= idx < P.n
     post: _
     """
-    return run(_auto_body, front, mask, skipmask, cv)
+    return run(_auto_point, idx)
 
 
 def _skip_body(x):
     """SKIP_HEADER is honoured only for the three skippable headers: for any other name it must raise, not silently drop."""
-    x = concretize(x)
     name = "X-" + x
     exc, tx = _send(0, "GET", "/p", {name: SKIP_HEADER})
     if exc is None:
@@ -279,17 +310,25 @@ def _skip_body(x):
     return True
 
 
-def c10_skip(x: str) -> bool:
+def skip_dims(part):
+    return [strings_upto("aA-1", 2)]
+
+
+def _skip_point(idx):
+    (x,) = decode_point(idx, skip_dims(P))
+    return N._untraced(_skip_body)(x)
+
+
+def c10_skip(idx: int) -> bool:
     """
-    pre: len(x) <= 2 and all(ch in "aA-1" for ch in x)
+    pre: 0 <= idx < P.n
     post: _
     """
-    return run(_skip_body, x)
+    return run(_skip_point, idx)
 
 
 def _h2_body(x, which, as_bytes):
     from urllib3.http2.connection import HTTP2Connection
-    x = concretize(x)
     conn = HTTP2Connection("h", 443)
     name, value = ("x-a", "v")
     if which == 0:
@@ -324,12 +363,24 @@ def _h2_body(x, which, as_bytes):
     return True
 
 
-def c10_h2(x: str, which: int, as_bytes: bool) -> bool:
+def h2_dims(part):
+    return [strings_upto(ALPHABET + "A", part["maxlen"]), [0, 1], [False, True]]
+
+
+def _h2_point(idx):
+    x, which, as_bytes = decode_point(idx, h2_dims(P))
+    return N._untraced(_h2_body)(x, which, as_bytes)
+
+
+def c10_h2(idx: int) -> bool:
     """
-    pre: len(x) <= P.maxlen and all(ch in ALPHABET + "A" for ch in x) and 0 <= which <= 1
+    pre: 0 <= idx < P.n
     post: _
     """
-    return run(_h2_body, x, which, as_bytes)
+    return run(_h2_point, idx)
+
+
+DIMS = {"c10_field": field_dims, "c10_auto": auto_dims, "c10_skip": skip_dims, "c10_h2": h2_dims}
 
 
 # ---- E2 lemmas -------------------------------------------------------------------------------------------------------
@@ -449,19 +500,12 @@ def LEMMAS(tier):
 
 def JOBS(tier):
     quick = tier == "quick"
-    t = 150 if quick else 900
+    t = 170 if quick else 900
     jobs = []
     for front in (0, 1, 2):
         for field in ("method", "target", "hname", "hvalue"):
-            if quick:
-                jobs.append({"func": "c10_field", "timeout": t, "path_timeout": 60,
-                             "part": {"front": front, "field": field, "maxlen": 2, "first": None}})
-            else:
-                jobs.append({"func": "c10_field", "timeout": t, "part": {"front": front, "field": field, "maxlen": 0, "first": None}})
-                for ch in ALPHABET:
-                    jobs.append({"func": "c10_field", "timeout": t, "path_timeout": 60,
-                                 "part": {"front": front, "field": field, "maxlen": 3, "first": ch}})
-    for front in (0, 1, 2):
+            jobs.append({"func": "c10_field", "timeout": t, "path_timeout": 60, "samples": 1,
+                         "part": {"front": front, "field": field, "maxlen": 3 if quick else 4}})
         jobs.append({"func": "c10_auto", "timeout": t, "part": {"front": front}})
     jobs.append({"func": "c10_skip", "timeout": t, "part": {}})
     jobs.append({"func": "c10_h2", "timeout": t, "part": {"maxlen": 2 if quick else 3}})
@@ -470,10 +514,10 @@ def JOBS(tier):
 
 EVIDENCE = {
     "bounds": {"quick": "E2 lemmas: strings of any length over the full code-point range (bytes patterns: 0..255); E1: one hostile field "
-                        "(method, target after '/', header name, header value) of <= 2 characters over the 14-character alphabet "
+                        "(method, target after '/', header name, header value) of <= 3 characters over the 14-character alphabet "
                         "{CR,LF,NUL,DEL,SP,HTAB,':','%','#','?','a','é','€','/'} x 3 entry points; automatic headers: 8 supply masks x "
                         "skip masks x 4 casings x 3 entry points; HTTP/2 putheader with <= 2 hostile characters as str and bytes",
-               "thorough": "fields of <= 3 characters (partitioned by first character), HTTP/2 <= 3"},
+               "thorough": "fields of <= 4 characters, HTTP/2 <= 3"},
     "outside": ["hostile strings longer than the bound in E1 (the E2 lemmas cover any length for the validation patterns)",
                 "body bytes (C11)", "HTTP/2 framing (h2 package)"],
     "stubs": ["create_connection -> MemSock", "clock constant", "logging disabled"],
